@@ -6,6 +6,8 @@ package gkvlite
 // "verif" build tag; nothing here changes the behaviour of the package.
 
 import (
+	"encoding/hex"
+	"strconv"
 	"sync"
 	"unsafe"
 )
@@ -184,4 +186,75 @@ func verifEvent(kind int, r *rootNodeLoc) {
 	if f := VerifEventFn; f != nil {
 		f(kind, uintptr(unsafe.Pointer(r)))
 	}
+}
+
+// VerifCacheState renders, without loading anything, what is in memory under the
+// version the handle c currently points at: for every node slot whether it is
+// empty ("-"), on file only ("S<off>+<len>") or cached ("( left item numNodes
+// numBytes <off>+<len>|n right )"), and for every cached node's item slot whether
+// the item is on file only ("s<loc>"), cached without its value ("k<loc>:key:prio"),
+// cached with it ("f<loc>:key:prio:val") or not yet persisted ("d:key:prio:val").
+func VerifCacheState(c *Collection) string {
+	c.rootLock.Lock()
+	r := c.root
+	c.rootLock.Unlock()
+	if r == nil {
+		return "closed"
+	}
+	var b []byte
+	b = verifCacheState(b, r.root)
+	return string(b)
+}
+
+func verifLocString(p *ploc) string {
+	return strconv.FormatInt(p.Offset, 10) + "+" + strconv.FormatUint(uint64(p.Length), 10)
+}
+
+func verifCacheState(b []byte, n *nodeLoc) []byte {
+	if n == nil || n.isEmpty() {
+		return append(b, '-')
+	}
+	loc, nd := n.LocNode()
+	if nd == nil {
+		return append(append(b, 'S'), verifLocString(loc)...)
+	}
+	b = append(b, "( "...)
+	b = verifCacheState(b, &nd.left)
+	b = append(b, ' ')
+	iloc, it := nd.item.Loc(), nd.item.Item()
+	switch {
+	case it == nil:
+		b = append(append(b, 's'), verifLocString(iloc)...)
+	case it.Val == nil:
+		b = append(append(b, 'k'), verifLocString(iloc)...)
+		b = append(b, ':')
+		b = append(b, hex.EncodeToString(it.Key)...)
+		b = append(b, ':')
+		b = strconv.AppendInt(b, int64(it.Priority), 10)
+	default:
+		if iloc.isEmpty() {
+			b = append(b, "d:"...)
+		} else {
+			b = append(append(b, 'f'), verifLocString(iloc)...)
+			b = append(b, ':')
+		}
+		b = append(b, hex.EncodeToString(it.Key)...)
+		b = append(b, ':')
+		b = strconv.AppendInt(b, int64(it.Priority), 10)
+		b = append(b, ':')
+		b = append(b, hex.EncodeToString(it.Val)...)
+	}
+	b = append(b, ' ')
+	b = strconv.AppendUint(b, nd.numNodes, 10)
+	b = append(b, ' ')
+	b = strconv.AppendUint(b, nd.numBytes, 10)
+	b = append(b, ' ')
+	if loc.isEmpty() {
+		b = append(b, 'n')
+	} else {
+		b = append(b, verifLocString(loc)...)
+	}
+	b = append(b, ' ')
+	b = verifCacheState(b, &nd.right)
+	return append(b, " )"...)
 }
